@@ -494,7 +494,9 @@ class SharesManager(BaseManager):
             parent = parents[-1]
             parent.items |= shared_directory.items
 
-        self._cleanup_term_map()
+        # The removed directory keeps its items alive, rebuild the term map so
+        # that only items of the remaining directories can be found
+        self.rebuild_term_map()
 
         self._event_bus.emit_sync(SharedDirectoryChangeEvent(shared_directory))
 
